@@ -31,6 +31,8 @@ Section Inv.
   Variable dec_ota : blob -> option (list (N * N)).
   Variable enc_scenes : list (N * N) -> blob.
   Variable dec_scenes : blob -> option (list (N * N)).
+  Variable enc_sub : N * N -> blob.
+  Variable dec_sub : blob -> option (N * N).
 
   (** the codecs read back what they wrote (checked on the real codecs by the harness) *)
   Hypothesis rt_fab : forall i f, dec_fab (enc_fab i f) = Some (i, f).
@@ -44,14 +46,18 @@ Section Inv.
   Hypothesis rt_icd : forall v, dec_icd (enc_icd v) = Some v.
   Hypothesis rt_ota : forall v, dec_ota (enc_ota v) = Some v.
   Hypothesis rt_scenes : forall v, dec_scenes (enc_scenes v) = Some v.
+  Hypothesis rt_sub : forall v, dec_sub (enc_sub v) = Some v.
 
   Notation state := (state blob).
   Notation kv := (kv blob).
   Notation step := (step blob enc_fab dec_fab enc_basic dec_basic enc_nets dec_nets enc_labels dec_labels
                          enc_binds dec_binds enc_res dec_res enc_tz dec_tz enc_tts dec_tts enc_icd dec_icd
-                         enc_ota dec_ota enc_scenes dec_scenes true).
+                         enc_ota dec_ota enc_scenes dec_scenes enc_sub dec_sub true).
   Notation startup := (startup blob dec_fab dec_basic dec_nets dec_labels dec_binds enc_res dec_res
-                               dec_tz dec_tts dec_icd dec_ota dec_scenes).
+                               dec_tz dec_tts dec_icd dec_ota dec_scenes enc_sub dec_sub).
+  Notation persist_subs := (persist_subs blob enc_sub).
+  Notation load_subs := (load_subs blob dec_sub).
+  Notation resume_subs := (resume_subs blob enc_sub dec_sub).
   Notation load_fabs := (load_fabs blob dec_fab).
   Notation load_resump := (load_resump blob enc_res dec_res).
   Notation replay := (replay blob).
@@ -86,9 +92,79 @@ Section Inv.
     i_icd : cell_sync (aget (s_kv st) K_ICD_CLIENTS) enc_icd [] (r_icd (s_ram st));
     i_ota : cell_sync (aget (s_kv st) K_OTA) enc_ota [] (r_ota (s_ram st));
     i_scenes : cell_sync (aget (s_kv st) K_SCENES) enc_scenes [] (r_scenes (s_ram st));
+    (* the subscription slots hold records or nothing (the table itself is persisted best-effort) *)
+    i_subs : forall i, i < NSUBS -> cell_dec (aget (s_kv st) (SUBS_START + i)) enc_sub;
     (* a PASE session is on fabric 0 unless this fail-safe period's AddNOC upgraded it *)
     i_pase : forall pf, s_pase st = Some pf -> pf <> 0 -> s_fs st = Armed pf 2
   }.
+
+  (** ** The subscription slots *)
+  Definition in_subs (k : N) : Prop := SUBS_START <= k < SUBS_START + NSUBS.
+
+  Definition subop (o : kvop blob) : Prop :=
+    match o with
+    | KStore k b => in_subs k /\ exists x, b = enc_sub x
+    | KRemove k => in_subs k
+    end.
+
+  Lemma sub_stores_subop : forall l slot, SUBS_START <= slot -> slot + N.of_nat (length l) <= SUBS_START + NSUBS ->
+    Forall subop (sub_stores blob enc_sub slot l).
+  Proof using Type.
+    clear.
+    induction l as [|x t IH]; intros slot H1 H2; cbn [sub_stores]; constructor.
+    - cbn [length] in H2. split; [unfold in_subs; lia|eexists; reflexivity].
+    - apply IH; cbn [length] in H2; lia.
+  Qed.
+
+  Lemma persist_subs_subop : forall l, Forall subop (persist_subs l).
+  Proof using Type.
+    clear.
+    intros l. unfold Persist.persist_subs. apply Forall_app. split.
+    - apply sub_stores_subop; [lia|].
+      pose proof (firstn_le_length (N.to_nat NSUBS) l). lia.
+    - apply Forall_forall. intros o Ho. apply in_map_iff in Ho. destruct Ho as [k [<- Hk]].
+      apply in_nrange in Hk. pose proof (firstn_le_length (N.to_nat NSUBS) l). cbn [subop]. unfold in_subs. lia.
+  Qed.
+
+  Lemma replay_subops : forall ops (m : kv), Forall subop ops ->
+    (forall k, ~ in_subs k -> aget (replay m ops) k = aget m k) /\
+    (forall k, cell_dec (aget m k) enc_sub -> cell_dec (aget (replay m ops) k) enc_sub).
+  Proof using Type.
+    clear.
+    induction ops as [|o t IH]; intros m Hf; cbn [Persist.replay fold_left]; [tauto|].
+    inversion Hf as [|? ? Ho Ht]; subst. fold (replay (kv_apply blob m o) t).
+    destruct (IH (kv_apply blob m o) Ht) as [IH1 IH2]. split.
+    - intros k Hk. rewrite IH1 by assumption. destruct o as [k0 b|k0]; cbn [kv_apply subop] in *.
+      + destruct Ho as [Hin _]. apply aget_aset_other. intros E. subst. contradiction.
+      + apply aget_adel_other. intros E. subst. contradiction.
+    - intros k Hk. apply IH2. destruct o as [k0 b|k0]; cbn [kv_apply subop] in *.
+      + destruct Ho as [_ [x ->]]. destruct (N.eq_dec k k0) as [E|E].
+        * subst. rewrite aget_aset_same. right. eexists. reflexivity.
+        * rewrite aget_aset_other by assumption. assumption.
+      + destruct (N.eq_dec k k0) as [E|E].
+        * subst. rewrite aget_adel_same. left. reflexivity.
+        * rewrite aget_adel_other by assumption. assumption.
+  Qed.
+
+  Lemma load_subs_total : forall slots (m : kv),
+    (forall k, In k slots -> cell_dec (aget m k) enc_sub) -> exists l, load_subs slots m = Some l.
+  Proof.
+    induction slots as [|k t IH]; intros m H; cbn [Persist.load_subs]; [eauto|].
+    destruct (H k (or_introl eq_refl)) as [E|[x E]]; rewrite E; [eauto|]. rewrite rt_sub.
+    destruct (IH m) as [l El]; [intros k0 Hk0; apply H; right; assumption|]. rewrite El. eauto.
+  Qed.
+
+  Lemma resume_subs_total : forall (m : kv) fabs,
+    (forall i, i < NSUBS -> cell_dec (aget m (SUBS_START + i)) enc_sub) ->
+    exists sb ops, resume_subs m fabs = Some (sb, ops) /\ Forall subop ops.
+  Proof.
+    intros m fabs H. unfold Persist.resume_subs.
+    destruct (load_subs_total (nrange SUBS_START (N.to_nat NSUBS)) m) as [l El].
+    - intros k Hk. apply in_nrange in Hk. replace k with (SUBS_START + (k - SUBS_START)) by lia. apply H. lia.
+    - rewrite El. destruct (length (filter (fun x => amem fabs (fst x)) l) =? length l)%nat.
+      + eexists _, _. split; [reflexivity|constructor].
+      + eexists _, _. split; [reflexivity|apply persist_subs_subop].
+  Qed.
 
   (** ** Start-up from a store satisfying the invariant *)
 
@@ -242,7 +318,9 @@ Section Inv.
       (s_fs st = Idle -> r_nets r = r_nets (s_ram st)) /\
       r_labels r = r_labels (s_ram st) /\
       r_binds r = r_binds (s_ram st) /\
-      (r_resump r, ops) = load_resump (s_kv st) (r_fabs r) /\
+      (exists ops1 ops2, (r_resump r, ops1) = load_resump (s_kv st) (r_fabs r) /\
+                         resume_subs (s_kv st) (r_fabs r) = Some (r_subs r, ops2) /\
+                         Forall subop ops2 /\ ops = ops1 ++ ops2) /\
       cell_sync (aget (s_kv st) K_NETS) enc_nets nets_reset (r_nets r) /\
       akeys (r_fabs r) = filter (fun i => amem (s_kv st) (fabric_key i)) fab_indices /\
       (r_tz r = r_tz (s_ram st) /\ r_tts r = r_tts (s_ram st) /\ r_icd r = r_icd (s_ram st) /\
@@ -264,12 +342,14 @@ Section Inv.
     unfold Persist.startup. rewrite Hl, Hb.
     destruct (load_resump (s_kv st) l) as [res ops] eqn:Er.
     rewrite Hns, Hbd, Hlb, Hsc, Hot, Htz, Hic, Htt.
+    destruct (resume_subs_total (s_kv st) l (i_subs st HI)) as [sb [ops2 [Esb Hops2]]]. rewrite Esb.
     exists (mkRam l (r_basic (s_ram st)) ns (r_labels (s_ram st)) (r_binds (s_ram st)) res
-                  (r_tz (s_ram st)) (r_tts (s_ram st)) (r_icd (s_ram st)) (r_ota (s_ram st)) (r_scenes (s_ram st))), ops.
-    split; [reflexivity|]. cbn [r_fabs r_basic r_nets r_labels r_binds r_resump r_tz r_tts r_icd r_ota r_scenes].
+                  (r_tz (s_ram st)) (r_tts (s_ram st)) (r_icd (s_ram st)) (r_ota (s_ram st)) (r_scenes (s_ram st)) sb),
+           (ops ++ ops2).
+    split; [reflexivity|]. cbn [r_fabs r_basic r_nets r_labels r_binds r_resump r_tz r_tts r_icd r_ota r_scenes r_subs].
     assert (Hstored : forall i, 1 <= i <= 255 -> aget l i = stored_fab (s_kv st) i).
     { intros i Hi. rewrite Hget. apply existsb_fab_indices in Hi. rewrite Hi. reflexivity. }
-    split; [|split; [exact Hstored|split; [reflexivity|split; [|split; [reflexivity|split; [reflexivity|split; [symmetry; exact Er|split; [|split; [exact Hkeys|repeat split]]]]]]]]].
+    split; [|split; [exact Hstored|split; [reflexivity|split; [|split; [reflexivity|split; [reflexivity|split; [exists ops, ops2; repeat split; [symmetry; exact Er|exact Esb|exact Hops2]|split; [|split; [exact Hkeys|repeat split]]]]]]]]].
     - intros i Hna.
       destruct (existsb (N.eqb i) fab_indices) eqn:Ex.
       + apply existsb_fab_indices in Ex. rewrite (Hstored i Ex). unfold stored_fab.
@@ -291,16 +371,17 @@ Section Inv.
 
   (** ** Preservation *)
 
-  Ltac keys := unfold K_BASIC, K_NETS, K_LABELS, K_BIND, K_RESUMP, K_TZ, K_TTS, K_ICD_CLIENTS, K_OTA, K_SCENES,
-                      fabric_key, FABRIC_KEYS_START in *; lia.
+  Ltac keys := unfold in_subs in *;
+               unfold K_BASIC, K_NETS, K_LABELS, K_BIND, K_RESUMP, K_TZ, K_TTS, K_ICD_CLIENTS, K_OTA, K_SCENES,
+                      SUBS_START, NSUBS, fabric_key, FABRIC_KEYS_START in *; lia.
   Ltac kvs := repeat first
     [ rewrite aget_aset_same | rewrite aget_adel_same
     | rewrite aget_aset_other by keys | rewrite aget_adel_other by keys ].
 
   Ltac sstate := cbv zeta;
     cbn [fst snd Persist.commit Persist.refuse Persist.kvlog Persist.replay fold_left kv_apply app
-         with_ram set_fabs set_basic set_nets set_labels set_binds set_resump set_tz set_tts set_icd set_ota set_scenes
-         s_ram s_fs s_kv s_pase r_fabs r_basic r_nets r_labels r_binds r_resump r_tz r_tts r_icd r_ota r_scenes].
+         with_ram set_fabs set_basic set_nets set_labels set_binds set_resump set_tz set_tts set_icd set_ota set_scenes set_subs
+         s_ram s_fs s_kv s_pase r_fabs r_basic r_nets r_labels r_binds r_resump r_tz r_tts r_icd r_ota r_scenes r_subs].
 
   Notation fabric_write := (fabric_write blob enc_fab).
   Notation commit := (commit blob).
@@ -318,7 +399,7 @@ Section Inv.
     intros st f upd staged HI Hst. unfold Persist.fabric_write.
     destruct (aget (r_fabs (s_ram st)) f) as [fb|] eqn:Ef; [|exact HI].
     assert (Hr : 1 <= f <= 254) by (apply (i_range st HI); eapply aget_In_keys; eassumption).
-    destruct HI as [Hnd Hrg Hcap Hfab Hbas Hnets Hnd2 Hlab Hbind Hres Htz Htts Hicd Hota Hsc Hpase].
+    destruct HI as [Hnd Hrg Hcap Hfab Hbas Hnets Hnd2 Hlab Hbind Hres Htz Htts Hicd Hota Hsc Hsub Hpase].
     destruct staged; sstate.
     - (* staged: memory only *)
       constructor; sstate; try assumption.
@@ -344,6 +425,7 @@ Section Inv.
           intros _. apply aget_aset_same.
         * rewrite fabric_key_id, aget_aset_other by assumption.
           unfold amem. rewrite aget_aset_other by assumption. exact Hfab.
+      + intros i Hi. rewrite fabric_key_id. rewrite aget_aset_other by keys. apply Hsub. assumption.
   Qed.
 
   (** nothing about the fabrics, the fail-safe or the PASE session changes *)
@@ -364,10 +446,11 @@ Section Inv.
     cell_sync (aget (s_kv st') K_ICD_CLIENTS) enc_icd [] (r_icd (s_ram st')) ->
     cell_sync (aget (s_kv st') K_OTA) enc_ota [] (r_ota (s_ram st')) ->
     cell_sync (aget (s_kv st') K_SCENES) enc_scenes [] (r_scenes (s_ram st')) ->
+    (forall i, i < NSUBS -> cell_dec (aget (s_kv st') (SUBS_START + i)) enc_sub) ->
     Inv st'.
   Proof.
-    intros st st' HI Ef Efs Ep Hkv Hb Hn Hnd Hl Hbd Hr Hz Ht Hi Ho Hs.
-    destruct HI as [Hnd0 Hrg Hcap Hfab Hbas Hnets Hnd2 Hlab Hbind Hres Htz Htts Hicd Hota Hsc Hpase].
+    intros st st' HI Ef Efs Ep Hkv Hb Hn Hnd Hl Hbd Hr Hz Ht Hi Ho Hs Hsb.
+    destruct HI as [Hnd0 Hrg Hcap Hfab Hbas Hnets Hnd2 Hlab Hbind Hres Htz Htts Hicd Hota Hsc Hsub Hpase].
     constructor; try assumption.
     - rewrite Ef; assumption.
     - rewrite Ef; assumption.
@@ -432,11 +515,22 @@ Section Inv.
     - eapply Hcell; [eassumption|eassumption|apply (i_icd st HI)].
     - eapply Hcell; [eassumption|eassumption|apply (i_ota st HI)].
     - eapply Hcell; [eassumption|eassumption|apply (i_scenes st HI)].
+    - intros i Hi. rewrite aget_aset_other by (cbn in Hk; keys). apply (i_subs st HI). assumption.
   Qed.
 
-  Notation fabric_removed := (fabric_removed blob enc_binds enc_res enc_icd enc_ota enc_scenes).
+  Notation fabric_removed := (fabric_removed blob enc_binds enc_res enc_icd enc_ota enc_scenes enc_sub).
 
   Ltac single := sstate; try reflexivity; try (intros; keys); try tauto; try (cbn; tauto).
+
+  (** the subscription table in memory changes, and / or sub-slot operations are replayed *)
+  Lemma inv_subs : forall st sb ops, Inv st -> Forall subop ops ->
+    Inv (mkState blob (set_subs (s_ram st) sb) (s_fs st) (s_pase st) (replay (s_kv st) ops)).
+  Proof.
+    intros st sb ops HI Hops. destruct (replay_subops ops (s_kv st) Hops) as [Hout Hin].
+    eapply inv_update; [exact HI|..]; sstate; try reflexivity; rewrite ?Hout by keys; try apply HI.
+    - intros i Hi. rewrite Hout by keys. reflexivity.
+    - intros i Hi. apply Hin. apply (i_subs st HI). assumption.
+  Qed.
 
   Lemma inv_fabric_removed : forall st g, Inv st ->
     Inv (mkState blob (fst (fabric_removed (s_ram st) g)) (s_fs st) (s_pase st)
@@ -448,8 +542,16 @@ Section Inv.
     assert (HI1 : Inv (mkState blob (set_resump (s_ram st) res') (s_fs st) (s_pase st)
                                (aset (s_kv st) K_RESUMP (enc_res res')))).
     { apply inv_singletons; single. intros _. eexists; reflexivity. }
-    set (st1 := mkState blob (set_resump (s_ram st) res') (s_fs st) (s_pase st)
+    set (st0 := mkState blob (set_resump (s_ram st) res') (s_fs st) (s_pase st)
                         (aset (s_kv st) K_RESUMP (enc_res res'))) in *.
+    (* the subscriptions of the fabric *)
+    set (sb := filter (fun x => negb (fst x =? g)) (r_subs (s_ram st))).
+    set (sops := if (length sb =? length (r_subs (s_ram st)))%nat then [] else persist_subs sb).
+    assert (HI1s : Inv (mkState blob (set_subs (s_ram st0) sb) (s_fs st) (s_pase st) (replay (s_kv st0) sops))).
+    { apply (inv_subs st0); [exact HI1|]. unfold sops.
+      destruct (length sb =? length (r_subs (s_ram st)))%nat; [constructor|apply persist_subs_subop]. }
+    clear HI1. rename HI1s into HI1.
+    set (st1 := mkState blob (set_subs (s_ram st0) sb) (s_fs st) (s_pase st) (replay (s_kv st0) sops)) in *.
     (* scenes *)
     set (sc := if amem (r_scenes (s_ram st)) g then adel (r_scenes (s_ram st)) g else r_scenes (s_ram st)).
     set (kv2 := if amem (r_scenes (s_ram st)) g then aset (s_kv st1) K_SCENES (enc_scenes sc) else s_kv st1).
@@ -482,15 +584,25 @@ Section Inv.
       - apply (inv_singletons st4); single; assumption.
       - replace (set_binds (s_ram st4) (r_binds (s_ram st))) with (s_ram st4) by reflexivity. exact HI4. }
     (* the function computes exactly this state *)
-    unfold sc, kv2, ot, kv3, ic, kv4, bd, kv5, st4, st3, st2, st1 in HI5. clear -HI5.
-    destruct (amem (r_scenes (s_ram st)) g), (amem (r_ota (s_ram st)) g), (amem (r_icd (s_ram st)) g),
-             (amem (r_binds (s_ram st)) g); sstate; sstate; exact HI5.
+    unfold kv5, bd in HI5. unfold st4 in HI5. unfold kv4, ic in HI5. unfold st3 in HI5. unfold kv3, ot in HI5.
+    unfold st2 in HI5. unfold kv2, sc in HI5. unfold st1 in HI5. unfold sops in HI5. unfold st0 in HI5.
+    clear -HI5.
+    cbn [with_ram set_fabs set_basic set_nets set_labels set_binds set_resump set_tz set_tts set_icd set_ota
+         set_scenes set_subs s_ram s_fs s_kv s_pase r_fabs r_basic r_nets r_labels r_binds r_resump r_tz r_tts
+         r_icd r_ota r_scenes r_subs] in HI5.
+    fold sb.
+    destruct (length sb =? length (r_subs (s_ram st)))%nat,
+             (amem (r_scenes (s_ram st)) g), (amem (r_ota (s_ram st)) g), (amem (r_icd (s_ram st)) g),
+             (amem (r_binds (s_ram st)) g); sstate; rewrite ?app_nil_r, ?kvlog_app, ?kvlog_map_EKv;
+      unfold Persist.replay in *; cbn [Persist.kvlog] in *; rewrite ?fold_left_app;
+      cbn [fold_left kv_apply] in *; exact HI5.
   Qed.
 
   Lemma fabric_removed_fabs : forall r g, r_fabs (fst (fabric_removed r g)) = r_fabs r.
   Proof.
     intros r g. unfold Persist.fabric_removed, Persist.drop_for.
-    destruct (amem (r_scenes r) g), (amem (r_ota r) g), (amem (r_icd r) g), (amem (r_binds r) g); reflexivity.
+    destruct (Nat.eqb (length (filter (fun x => negb (fst x =? g)) (r_subs r))) (length (r_subs r))),
+             (amem (r_scenes r) g), (amem (r_ota r) g), (amem (r_icd r) g), (amem (r_binds r) g); reflexivity.
   Qed.
 
   (** the fabric's key and table entry go together *)
@@ -498,7 +610,7 @@ Section Inv.
     Inv (mkState blob (set_fabs (s_ram st) (adel (r_fabs (s_ram st)) g)) (s_fs st) (s_pase st) (adel (s_kv st) g)).
   Proof.
     intros st g HI Hg.
-    destruct HI as [Hnd0 Hrg Hcap Hfab Hbas Hnets Hnd2 Hlab Hbind Hres Htz Htts Hicd Hota Hsc Hpase].
+    destruct HI as [Hnd0 Hrg Hcap Hfab Hbas Hnets Hnd2 Hlab Hbind Hres Htz Htts Hicd Hota Hsc Hsub Hpase].
     constructor; sstate; kvs; try assumption.
     - apply nodup_adel; assumption.
     - intros i Hi. apply akeys_adel in Hi. apply Hrg. tauto.
@@ -507,6 +619,7 @@ Section Inv.
       + subst i. rewrite aget_adel_same. right. apply aget_adel_same.
       + rewrite aget_adel_other by assumption. unfold amem. rewrite aget_adel_other by assumption.
         apply Hfab; assumption.
+    - intros i Hi. rewrite aget_adel_other by keys. apply Hsub. assumption.
   Qed.
 
   Lemma aget_replay_removes : forall ks (m : kv) k,
@@ -529,8 +642,15 @@ Section Inv.
     split; [apply fabric_key_id|apply in_fab_indices; assumption].
   Qed.
 
+  Lemma reset_keys_subs : forall i, i < NSUBS -> existsb (N.eqb (SUBS_START + i)) reset_keys = true.
+  Proof.
+    intros i Hi. apply existsb_exists. exists (SUBS_START + i). split; [|apply N.eqb_refl].
+    unfold reset_keys. apply in_or_app. right. apply in_or_app. right. apply in_or_app. right.
+    apply in_or_app. left. apply in_nrange. unfold NSUBS in *. lia.
+  Qed.
+
   Lemma inv_reset : forall st, Inv st ->
-    Inv (mkState blob ram_factory (s_fs st) (s_pase st)
+    Inv (mkState blob (set_subs ram_factory (r_subs (s_ram st))) (s_fs st) (s_pase st)
                  (replay (s_kv st) (kvlog (map (fun k => EKv (@KRemove blob k)) reset_keys)))).
   Proof.
     intros st HI. rewrite kvlog_removes.
@@ -550,6 +670,7 @@ Section Inv.
     - left. split; reflexivity.
     - left. split; reflexivity.
     - left. split; reflexivity.
+    - intros i Hi. rewrite aget_replay_removes, (reset_keys_subs i Hi). left. reflexivity.
     - apply (i_pase st HI).
   Qed.
 
@@ -573,8 +694,17 @@ Section Inv.
     intros st r ops HI Hs.
     destruct (startup_sync st HI) as [r0 [ops0 [Hs0 [_ [Hst [Hb [_ [Hl [Hbd [Hres [Hn [Hk [Hz [Ht [Hic [Ho Hsc]]]]]]]]]]]]]]]].
     rewrite Hs in Hs0. injection Hs0 as <- <-.
-    assert (Hops : ops = snd (load_resump (s_kv st) (r_fabs r))) by (rewrite <- Hres; reflexivity).
-    destruct (load_resump_ops (s_kv st) (r_fabs r)) as [Hother Hdec]. rewrite <- Hops in Hother, Hdec.
+    destruct Hres as [ops1 [ops2 [Hres [Hsubs [Hsubops ->]]]]].
+    assert (Hops : ops1 = snd (load_resump (s_kv st) (r_fabs r))) by (rewrite <- Hres; reflexivity).
+    destruct (load_resump_ops (s_kv st) (r_fabs r)) as [Hother1 Hdec1]. rewrite <- Hops in Hother1, Hdec1.
+    destruct (replay_subops ops2 (replay (s_kv st) ops1) Hsubops) as [Hout2 Hin2].
+    rewrite replay_app.
+    assert (Hother : forall k, k <> K_RESUMP -> ~ in_subs k ->
+                     aget (replay (replay (s_kv st) ops1) ops2) k = aget (s_kv st) k).
+    { intros k H1 H2. rewrite Hout2 by assumption. apply Hother1. assumption. }
+    assert (Hdec : cell_dec (aget (s_kv st) K_RESUMP) enc_res ->
+                   cell_dec (aget (replay (replay (s_kv st) ops1) ops2) K_RESUMP) enc_res).
+    { intros H. rewrite Hout2 by keys. apply Hdec1. assumption. }
     constructor; sstate; rewrite ?Hother by keys.
     - rewrite Hk. apply NoDup_filter. apply nodup_nrange.
     - intros i Hi. rewrite Hk in Hi. apply filter_In in Hi. destruct Hi as [Hin Hm].
@@ -602,6 +732,7 @@ Section Inv.
     - rewrite Hic. apply (i_icd st HI).
     - rewrite Ho. apply (i_ota st HI).
     - rewrite Hsc. apply (i_scenes st HI).
+    - intros i Hi. apply Hin2. rewrite Hother1 by keys. apply (i_subs st HI). assumption.
     - intros pf H. discriminate.
   Qed.
 
@@ -611,7 +742,7 @@ Section Inv.
     Inv (mkState blob (s_ram st) (Armed c 0) (s_pase st) (s_kv st)).
   Proof.
     intros st c HI Hidle Hp.
-    destruct HI as [Hnd0 Hrg Hcap Hfab Hbas Hnets Hnd2 Hlab Hbind Hres Htz Htts Hicd Hota Hsc Hpase].
+    destruct HI as [Hnd0 Hrg Hcap Hfab Hbas Hnets Hnd2 Hlab Hbind Hres Htz Htts Hicd Hota Hsc Hsub Hpase].
     constructor; sstate; try assumption.
     - intros i Hi. specialize (Hfab i Hi). rewrite Hidle in Hfab. cbn [armed_for] in Hfab.
       destruct (aget (s_kv st) i).
@@ -672,10 +803,10 @@ Section Inv.
       destruct (v =? 0).
       + destruct (r_tts (s_ram st)) as [x|] eqn:Et; [|exact HI]. sstate.
         eapply inv_update; [exact HI|..]; sstate; kvs; try reflexivity; try apply HI.
-        intros i Hi. kvs. reflexivity.
+        all: intros i Hi; kvs; first [reflexivity | apply (i_subs st HI); assumption].
       + destruct (match r_tts (s_ram st) with Some (f0, v0) => (f0 =? f) && (v0 =? v) | None => false end); [exact HI|].
         sstate. eapply inv_update; [exact HI|..]; sstate; kvs; try reflexivity; try apply HI.
-        intros i Hi. kvs. reflexivity.
+        all: intros i Hi; kvs; first [reflexivity | apply (i_subs st HI); assumption].
     - (* OIcd *)
       destruct (caller_fab st c) as [f|]; [|exact HI]. destruct (f =? 0); [exact HI|].
       destruct (v =? 0).
@@ -689,6 +820,10 @@ Section Inv.
       destruct (v =? 0).
       + destruct (amem (r_scenes (s_ram st)) f); [|exact HI]. sstate. apply inv_singletons; single; assumption.
       + sstate. apply inv_singletons; single; assumption.
+    - (* OSub *)
+      destruct (caller_fab st c) as [f|]; [|exact HI]. destruct (f =? 0); [exact HI|].
+      unfold Persist.commit. cbn [fst with_ram s_ram s_fs s_pase s_kv Persist.kvlog]. rewrite kvlog_map_EKv.
+      apply (inv_subs st); [exact HI|apply persist_subs_subop].
     - (* ORemove *)
       destruct (caller_fab st c) as [f|]; [|exact HI].
       destruct (amem (r_fabs (s_ram st)) g) eqn:Eg; [|exact HI].
@@ -703,7 +838,7 @@ Section Inv.
       { destruct tts_of_g; sstate; [|exact HI0].
         eapply inv_update; [exact HI0|..]; sstate; kvs; try reflexivity; try apply HI0.
         all: try (unfold r1; sstate; apply HI).
-        intros i Hi. kvs. reflexivity. }
+        all: intros i Hi; kvs; first [reflexivity | apply (i_subs st HI); assumption]. }
       pose proof (inv_fabric_removed _ g HI1) as H.
       cbn [s_ram s_fs s_pase s_kv] in H.
       destruct (fabric_removed (if tts_of_g then set_tts r1 None else r1) g) as [r2 evs] eqn:Er.
@@ -725,7 +860,7 @@ Section Inv.
       { destruct (N.eq_dec pf 0) as [E|E]; [assumption|]. pose proof (i_pase st HI pf Ep E) as H. congruence. }
       subst pf.
       assert (Hstage : forall stg', Inv (mkState blob (s_ram st) (Armed 0 stg') (Some 0) (s_kv st))).
-      { intros stg'. destruct HI as [Hnd0 Hrg Hcap Hfab Hbas Hnets Hnd2 Hlab Hbind Hres Htz Htts Hicd Hota Hsc Hpase].
+      { intros stg'. destruct HI as [Hnd0 Hrg Hcap Hfab Hbas Hnets Hnd2 Hlab Hbind Hres Htz Htts Hicd Hota Hsc Hsub Hpase].
         constructor; sstate; try assumption.
         - intros i Hi. specialize (Hfab i Hi). rewrite Efs in Hfab. exact Hfab.
         - discriminate.
@@ -733,7 +868,7 @@ Section Inv.
       destruct (Nat.leb_spec MAX_FABRICS (length (r_fabs (s_ram st)))) as [Hfull|Hroom]; [sstate; apply Hstage|].
       destruct (new_index (r_fabs (s_ram st))) as [idx|] eqn:En; [|sstate; apply Hstage].
       destruct (new_index_spec _ _ En) as [Hidx Hfree]. sstate.
-      destruct HI as [Hnd0 Hrg Hcap Hfab Hbas Hnets Hnd2 Hlab Hbind Hres Htz Htts Hicd Hota Hsc Hpase].
+      destruct HI as [Hnd0 Hrg Hcap Hfab Hbas Hnets Hnd2 Hlab Hbind Hres Htz Htts Hicd Hota Hsc Hsub Hpase].
       constructor; sstate; try assumption.
       + apply nodup_aset; assumption.
       + intros i Hi. apply akeys_aset in Hi. destruct Hi as [[Hi _]|Hi]; [apply Hrg; assumption|subst; assumption].
@@ -753,7 +888,7 @@ Section Inv.
       destruct stg as [|p]; [|exact HI].
       destruct (N.eqb_spec ctx f) as [Ec|Ec]; [|exact HI]. subst ctx. sstate.
       assert (Hr : 1 <= f <= 254) by (apply (i_range st HI); eapply aget_In_keys; eassumption).
-      destruct HI as [Hnd0 Hrg Hcap Hfab Hbas Hnets Hnd2 Hlab Hbind Hres Htz Htts Hicd Hota Hsc Hpase].
+      destruct HI as [Hnd0 Hrg Hcap Hfab Hbas Hnets Hnd2 Hlab Hbind Hres Htz Htts Hicd Hota Hsc Hsub Hpase].
       constructor; sstate; try assumption.
       + apply nodup_aset; assumption.
       + intros i Hi. apply akeys_aset in Hi. destruct Hi as [[Hi _]|Hi]; [apply Hrg; assumption|subst; assumption].
@@ -772,7 +907,7 @@ Section Inv.
       destruct (s_fs st) as [|ctx stg] eqn:Efs; [exact HI|].
       destruct (ctx =? cf); [|exact HI].
       destruct (net_add (r_nets (s_ram st)) k) as [n'|]; [|exact HI]. sstate.
-      destruct HI as [Hnd0 Hrg Hcap Hfab Hbas Hnets Hnd2 Hlab Hbind Hres Htz Htts Hicd Hota Hsc Hpase].
+      destruct HI as [Hnd0 Hrg Hcap Hfab Hbas Hnets Hnd2 Hlab Hbind Hres Htz Htts Hicd Hota Hsc Hsub Hpase].
       constructor; sstate; try assumption. rewrite Efs. discriminate.
     - (* OComplete *)
       destruct (aget (r_fabs (s_ram st)) f) as [fb|] eqn:Ef; [|exact HI].
@@ -780,7 +915,7 @@ Section Inv.
       destruct (N.eqb_spec ctx f) as [Ec|Ec]; cbn [andb]; [|exact HI]. subst ctx.
       destruct (f =? 0); cbn [negb]; [exact HI|]. sstate. rewrite fabric_key_id.
       assert (Hr : 1 <= f <= 254) by (apply (i_range st HI); eapply aget_In_keys; eassumption).
-      destruct HI as [Hnd0 Hrg Hcap Hfab Hbas Hnets Hnd2 Hlab Hbind Hres Htz Htts Hicd Hota Hsc Hpase].
+      destruct HI as [Hnd0 Hrg Hcap Hfab Hbas Hnets Hnd2 Hlab Hbind Hres Htz Htts Hicd Hota Hsc Hsub Hpase].
       constructor; sstate; kvs; try assumption.
       + intros i Hi. specialize (Hfab i Hi). rewrite Efs in Hfab. cbn [armed_for] in *.
         rewrite aget_aset_other by keys.
@@ -790,6 +925,7 @@ Section Inv.
         * rewrite aget_aset_other by congruence. exact Hfab.
       + intros _. right. reflexivity.
       + apply dec_some.
+      + intros i Hi. kvs. apply Hsub. assumption.
       + discriminate.
     - (* OExpire *)
       destruct (s_fs st) as [|ctx stg] eqn:Efs; [exact HI|].
@@ -898,7 +1034,7 @@ Section Inv.
           cbn [fst snd] in H. sstate. exact H.
     - (* OResume *)
       destruct (amem (r_fabs (s_ram st)) f); [|exact HI]. sstate.
-      destruct HI as [Hnd0 Hrg Hcap Hfab Hbas Hnets Hnd2 Hlab Hbind Hres Htz Htts Hicd Hota Hsc Hpase].
+      destruct HI as [Hnd0 Hrg Hcap Hfab Hbas Hnets Hnd2 Hlab Hbind Hres Htz Htts Hicd Hota Hsc Hsub Hpase].
       constructor; sstate; assumption.
     - (* OFlush *)
       sstate.
@@ -908,7 +1044,7 @@ Section Inv.
     - (* OReset *)
       sstate. apply inv_reset. assumption.
     - (* OPase *)
-      sstate. destruct HI as [Hnd0 Hrg Hcap Hfab Hbas Hnets Hnd2 Hlab Hbind Hres Htz Htts Hicd Hota Hsc Hpase].
+      sstate. destruct HI as [Hnd0 Hrg Hcap Hfab Hbas Hnets Hnd2 Hlab Hbind Hres Htz Htts Hicd Hota Hsc Hsub Hpase].
       constructor; sstate; try assumption. intros pf H1 H2. injection H1 as <-. congruence.
     - (* OCrash *)
       destruct (startup (s_kv st)) as [[r' ops]|] eqn:Es; [|exact HI]. sstate.
